@@ -722,10 +722,10 @@ def rule_c06(ctx, prog, rule="R19"):
     wma = S("weighted_mean_axis")
     try:
         ok = False
-        detail = "no mapv_inplace on the per-axis weighted sum"
+        detail = "no mapv_inplace/mapv_into on the per-axis weighted sum"
         tb = prog.tracked(wma)
         for bb, t in tb.calls():
-            if callee_name(t) == "mapv_inplace":
+            if callee_name(t) in ("mapv_inplace", "mapv_into", "mapv", "map_inplace"):
                 a = tb.call_arg_exprs(bb)
                 tgt = unwrap_try(a[0])
                 cb, ups = closure_of(prog, a[1])
@@ -784,9 +784,12 @@ def west_recurrence(prog):
         state[nm] = dict(init=K.term(lp.init_expr(l)), step=K.term(lp.step_expr(l)))
     # result
     r = ds(tb.return_expr())
-    if not (isinstance(r, tuple) and r[0] == "agg" and r[2] == "Ok"):
+    if isinstance(r, tuple) and r[0] == "agg" and r[2] == "Ok":
+        res = K.term(r[3][0])
+    elif not (tb.raw.get("output") or "").startswith("std::result::Result"):
+        res = K.term(r)            # the kernel returns the value itself
+    else:
         raise Unrecognised("result is not Ok(..)")
-    res = K.term(r[3][0])
     return dict(state=state, result=res, producers=prods, body=tb)
 
 
@@ -999,6 +1002,8 @@ def rule_c07(ctx, prog, rule="R19"):
         r = ds(wv.return_expr())
         # weighted_var returns inner_weighted_var(self, weights, ddof, zero)
         finals = [ds(wv.def_expr(0, d)) for d in wv.reaching_defs(0, wv.exits()[0], "term")]
+        # the kernel may return the value itself (wrapped in Ok here) or a Result (returned as is)
+        finals = [ds(f[3][0]) if (isinstance(f, tuple) and f[0] == "agg" and f[2] == "Ok" and f[3]) else f for f in finals]
         call = [f for f in finals if isinstance(f, tuple) and f[0] == "call" and f[1] == "inner_weighted_var"]
         ok1 = len(call) == 1 and call[0][3][0][:2] == ("param", 1) and call[0][3][1][:2] == ("param", 2) and call[0][3][2][:2] == ("param", 3)
         zero1 = call[0][3][3] if call else None
